@@ -350,8 +350,10 @@ pub struct ViewInfo {
 fn outside<T>(map: &MemoryMap, data: &[T]) -> Option<String> {
     let m: &[u64] = map.as_ref();
     let (lo, hi) = (m.as_ptr() as usize, m.as_ptr() as usize + 8 * m.len());
-    let (a, b) = (data.as_ptr() as usize, data.as_ptr() as usize + std::mem::size_of_val(data));
-    if data.is_empty() || (a >= lo && b <= hi) {
+    // In u128: a corrupted view may claim more than 2^64 bytes.
+    let a = data.as_ptr() as usize as u128;
+    let b = a + data.len() as u128 * std::mem::size_of::<T>() as u128;
+    if data.is_empty() || (a >= lo as u128 && b <= hi as u128) {
         None
     } else {
         Some(format!("the view exposes bytes {:#x}..{:#x}, the map covers {:#x}..{:#x}", a, b, lo, hi))
